@@ -383,6 +383,65 @@ def random_strategy(tier):
                      st.one_of(st.none(), st.lists(st.sampled_from([1, 2, 5, 4096]), min_size=1, max_size=3)), st.booleans())
 
 
+# ---- reads of very many keys -----------------------------------------------------------------------------------------------
+
+class LastKeySerde:
+    """fails on the value of one key"""
+
+    def __init__(self, bad):
+        self.bad = bad
+
+    def serialize(self, key, value):
+        return value, 0
+
+    def deserialize(self, key, value, flags):
+        k = key if isinstance(key, bytes) else str(key).encode()
+        if k == self.bad:
+            raise ValueError("cannot deserialize the value of %r" % (key,))
+        return value
+
+
+def long_read_cases(tier, seed):
+    for kind in ("client", "pooled", "hash", "hash-pooled", "aws"):
+        for n in (1001, 10001, 25000) if tier == "quick" else (1001, 10001, 25000, 70000):
+            for failure in ("last-value", "first-value", "reset-late", "eof-late"):
+                for op in ("get_many", "gets_many"):
+                    if n > 10001 and op == "gets_many":
+                        continue
+                    yield {"kind": kind, "n": n, "failure": failure, "op": op}
+
+
+def check_long_read(case):
+    """a multi-key read of thousands of keys that fails late - the last value cannot be deserialised, the connection breaks while
+    the server is streaming the reply - is a miss as a whole with ignore_exc: an empty dict, not the part that had arrived"""
+    kind, n = case["kind"], case["n"]
+    env = Env(nservers=1)
+    srv = env.servers[0]
+    keys = ["key-%d" % i for i in range(n)]
+    for i, k in enumerate(keys):
+        srv.store[k.encode()] = Item(b"v%d" % i, 0, 0, srv._next_cas(), srv.clock.now)
+    bad = {"last-value": keys[-1], "first-value": keys[0]}.get(case["failure"])
+    cfg = {"ignore_exc": True}
+    if bad:
+        cfg["serde"] = LastKeySerde(bad.encode())
+    with virtual_time(env.clock):
+        c = faultlab.make_client(env, kind, cfg)
+        if case["failure"] in ("reset-late", "eof-late"):
+            # the reply is some 20 bytes per key: the failure comes when most of it has been received
+            nth = max(1, (n * 22) // 4096 - 2)
+            env.net.plan([{"call": env.ncalls, "kind": "recv", "nth": nth, "what": "reset" if case["failure"] == "reset-late" else "eof"}])
+        r = env.call(getattr(c, case["op"]), list(keys))
+    desc = "%s of %d keys on %s with ignore_exc, failure %s" % (case["op"], n, kind, case["failure"])
+    if r[0] != "ok":
+        raise Violation(["long-read", "raised", type(r[1]).__name__], "raised %r instead of returning a miss: %s" % (r[1], desc))
+    fired = bool(env.net.fired) or bool(bad)
+    if fired and r[1] != {}:
+        raise Violation(["long-read", "partial"], "returned %d items of a read that failed; a miss is {}: %s" % (len(r[1]), desc))
+    if not fired and len(r[1]) != n:
+        raise Violation(["long-read", "incomplete"], "returned %d of %d items of a read that did not fail: %s" % (len(r[1]), n, desc))
+    return fired, ["long-read", kind, case["failure"]]
+
+
 # ---- two users of one hash client ---------------------------------------------------------------------------------------
 
 def two_users_cases(tier, seed):
@@ -439,6 +498,7 @@ def check_two_users(case):
 
 
 PARTS = [
+    Part("reads-of-very-many-keys", "enum", check_long_read, cases=long_read_cases, shards={"quick": 10, "thorough": 16}, exhaustive=True),
     Part("two-users-at-once", "enum", check_two_users, cases=two_users_cases, exhaustive=True),
     Part("failure-sweep", "enum", check, cases=sweep_cases, exhaustive=True),
     Part("random", "hyp", check, strategy=random_strategy,
